@@ -167,6 +167,9 @@ class Solver:
         self.smt2 = []
         self.tactic = tactic
         self.samples = []
+        # second opinion: a deterministic sample of the labelled queries is re-decided by cvc5 (SMT-LIB text dumped by z3)
+        self.cross_budget = int(os.environ.get('VERIF_CVC5_SAMPLES', '3'))
+        self.cross = {'agree': 0, 'inconclusive': 0, 'disagree': []}
 
     def _mk(self, terms, conv=None, extra=()):
         conv = conv or Conv(self.mode)
@@ -205,6 +208,16 @@ class Solver:
                 self.smt2.append((label, res, txt))
         if label is not None and len(self.samples) < 12:
             self.samples.append({'query': label, 'verdict': res, 'seconds': round(dt, 3)})
+        if txt is not None and label is not None and self.cross_budget > 0 and res in ('sat', 'unsat') and dt < 5 and int(h[:4], 16) % 8 == 0 and len(txt) < 400000:
+            self.cross_budget -= 1
+            r2 = run_cvc5(txt, 20)
+            if r2 in ('sat', 'unsat'):
+                if r2 == res:
+                    self.cross['agree'] += 1
+                else:
+                    self.cross['disagree'].append({'query': label, 'z3': res, 'cvc5': r2})
+            else:
+                self.cross['inconclusive'] += 1
         if want_model:
             return res, (s.model() if res == 'sat' else None), conv
         return res
